@@ -293,6 +293,16 @@ CLAIMS["C16"]["text"] += (" Translator tie (harness/py2coq_arith.py): the halt d
                           "makes the translator fail closed.")
 
 
+CLAIMS["C14"]["ties"] = (_arith_tie_for("C14"),)
+CLAIMS["C14"]["technique"] += " + source-to-Gallina translator tie for the hooks of FundamentalPriceShock and OrderMistakeShock (regenerated and re-proved every run)"
+CLAIMS["C14"]["text"] += (" Translator tie (harness/py2coq_arith.py): FundamentalPriceShock.hooked_before_step_for_market and OrderMistakeShock.hooked_before_order are REGENERATED from "
+                          "/repo's source on every run and coq/translated/ArithC14Proofs.v is re-checked against the generated text: the fundamental shock raises outside its window or on "
+                          "another market and otherwise scales the fundamental value of the current time by 1 + rate - exactly the model's shock_before_step; the order mistake rewrites "
+                          "the order (limit at market price x (1 + rate), buying iff rate > 0, configured volume and time-to-live, rule spent) exactly where the model's before_order_effect "
+                          "does, and leaves every other order untouched. The call Market.change_fundamental_price and the stores on the order are read structurally (fail closed on any "
+                          "other shape).")
+
+
 def _index_tie():
     import translated
     return translated.index_tie()
